@@ -4,11 +4,18 @@
 
    Part A (text level)     what the two strings that parse_equation attaches to the left-hand symbols ARE, for every
                            statement text; Term.code / Term.__str__ case by case.
+   Part A2 (lexing)        how term_re lexes the documented syntax, for ALL names; scan_render: every well-formed flat
+                           token sequence (any length / nesting / layout) is lexed into exactly its tokens; so the code
+                           of every such statement that parse_equation accepts is the rendering of its token list.
+   Part A3                 how a statement enters the class text (Model.CODE).
    Part B (semantic level) for the arithmetic subset: which cells the statements of a script name (exactly the series
                            terms written, at the lag / lead written), in which order they run (symbol order), and what one
                            pass does with them (frame, accesses, Gauss-Seidel, locality) — for every arithmetic.
    Part C                  refutation witnesses: the genuine defects of the current code the model mirrors.
-   Tie to the code: K_parse / K_text / K_pyast / K_eval of harness/props/C01.py. *)
+   Tie to the code: K_parse / K_text / K_pyast / K_code / K_eval of harness/props/C01.py.
+   Trusted, only observed through K_pyast / K_eval: CPython's reading and evaluation of the generated code text (the
+   model reads the SCRIPT's tokens with Python's precedences; that CPython reads the CODE text the same way is checked
+   case by case against its `ast`), NumPy float64 arithmetic = the kernel's binary64, libm exp / log / ** (oracle table). *)
 From Coq Require Import String Ascii List Bool Arith ZArith PrimFloat.
 Import ListNotations.
 Require Import Generated PyBase PyStr Lex Format Symbols Split Merge ParseEq ParseModel Solver SolverF Eval EvalFacts EvalF.
@@ -200,6 +207,15 @@ Theorem C01_lex_function pw name ws rest :
 Proof. exact (match_here_function pw name ws rest). Qed.
 Print Assumptions C01_lex_function.
 
+(* … also when the name is namespaced (np.sqrt, a.b.c): first segment an identifier that is no keyword, then any run of
+   [_A-Za-z0-9.]; such a name is never in the replacement table (C01_namespaced_function_untouched) *)
+Theorem C01_lex_function_namespaced pw name ws rest :
+  fname name = true -> all_chars is_space ws = true ->
+  match_here pw (name ++ ws ++ String "(" rest)
+  = Some (mkMatch KFunction name None (String.length name + String.length ws)).
+Proof. exact (match_here_function_dotted pw name ws rest). Qed.
+Print Assumptions C01_lex_function_namespaced.
+
 (* a Python keyword between non-word characters (and not followed by an index bracket) is ONE keyword match … *)
 Theorem C01_lex_keyword k rest :
   In k KW -> head_ok (fun c => negb (is_word c)) rest = true ->
@@ -277,8 +293,8 @@ Theorem C01_wf_instance_shape :
 Proof. exact tsA_shape. Qed.
 Print Assumptions C01_wf_instance_shape.
 Theorem C01_wf_instance_keywords_verbatim :
-  wf tsB = true /\ render tsB = "C = ({a}*X[-1]) if not is_open > 0 and Pin else `np.pi` * W[1]" /\
-  code_text (render tsB) = Some "self._C[t] = (self._a[t]*self._X[t-1]) if not self._is_open[t] > 0 and self._Pin[t] else np.pi * self._W[t+1]".
+  wf tsB = true /\ render tsB = "C = ({a}*X[-1]) if not is_open > 0 and Pin else `np.pi` * np.sqrt (W[1])" /\
+  code_text (render tsB) = Some "self._C[t] = (self._a[t]*self._X[t-1]) if not self._is_open[t] > 0 and self._Pin[t] else np.pi * np.sqrt(self._W[t+1])".
 Proof. exact tsB_wf. Qed.
 Print Assumptions C01_wf_instance_keywords_verbatim.
 Theorem C01_wf_instance_code :
